@@ -272,6 +272,23 @@ func genBig(r *core.Run, row int) (string, bool) {
 	return strconv.FormatInt(v, 10), false
 }
 
+// prices and measurements: decimal fractions without an exact binary form, of mixed magnitude
+func genFrac(r *core.Run, row int) (string, bool) {
+	rng := r.Rand
+	if rng.Intn(15) == 0 {
+		return "", true
+	}
+	switch rng.Intn(4) {
+	case 0:
+		return fmt.Sprintf("%d.%02d", rng.Intn(100), 1+rng.Intn(98)), false
+	case 1:
+		return fmt.Sprintf("0.%d", 1+rng.Intn(9)), false
+	case 2:
+		return fmt.Sprintf("%d.%d", 1000+rng.Intn(900000), 1+rng.Intn(9)), false
+	}
+	return fmt.Sprintf("-%d.%03d", rng.Intn(10), 1+rng.Intn(998)), false
+}
+
 // plain integers (canonical spelling)
 func genInt(maxv int) colGen {
 	return func(r *core.Run, row int) (string, bool) {
